@@ -133,6 +133,7 @@ func runC04(c *Collector, r *Rng, thorough bool) {
 	c04Refill(c)
 	c04Reuse(c)
 	c04TwoSpellings(c)
+	c04RefusalIsStable(c)
 	// decoded messages: the alg consulted is the one in the protected bytes
 	n := 150
 	if thorough {
@@ -269,6 +270,82 @@ func c04Reuse(c *Collector) {
 					}
 				}
 			}
+		}
+	}
+}
+
+// c04RefusalIsStable: a Sign refused for its algorithm (or failed in the key) leaves the object as it was, so that
+// asking again gives the same answer - for COSE_Sign at every signer position.
+func c04RefusalIsStable(c *Collector) {
+	for _, first := range []string{"mismatch", "key-fault"} {
+		for n := 1; n <= 3; n++ {
+			for pos := 0; pos < n; pos++ {
+				sm := &cose.SignMessage{Headers: cose.Headers{Protected: cose.ProtectedHeader{}}, Payload: []byte("p")}
+				var sgs []cose.Signer
+				for j := 0; j < n; j++ {
+					sm.Signatures = append(sm.Signatures, &cose.Signature{Headers: cose.Headers{Protected: cose.ProtectedHeader{cose.HeaderLabelAlgorithm: cose.AlgorithmES512}}})
+					sgs = append(sgs, &spySigner{alg: cose.AlgorithmES512, kind: SOk, sig: []byte{byte(j + 1)}})
+				}
+				if first == "mismatch" {
+					sgs[pos] = &spySigner{alg: cose.AlgorithmES256, kind: SOk, sig: []byte{9}}
+				} else {
+					sgs[pos] = &spySigner{alg: cose.AlgorithmES512, kind: SErr}
+				}
+				before := oSignMsg(sm)
+				e1 := sm.Sign(nil, nil, sgs...)
+				mid := oSignMsg(sm)
+				// second attempt: at the failing position now a signer of another algorithm than the header names
+				other := &spySigner{alg: cose.AlgorithmES256, kind: SOk, sig: []byte{8}}
+				sgs2 := append([]cose.Signer{}, sgs...)
+				sgs2[pos] = other
+				for j := 0; j < pos; j++ {
+					sgs2[j] = &spySigner{alg: cose.AlgorithmES512, kind: SOk, sig: []byte{byte(j + 1)}}
+				}
+				for _, sg := range sm.Signatures {
+					sg.Signature = nil
+				}
+				e2 := sm.Sign(nil, nil, sgs2...)
+				c.Eval("refusal-is-stable/"+first, fmt.Sprint(n, pos), true)
+				rep := map[string]any{"n": n, "position": pos, "first": first}
+				if e1 == nil {
+					continue
+				}
+				alg, _ := sm.Signatures[pos].Headers.Protected.Algorithm()
+				if e2 == nil || len(other.calls) > 0 || alg != cose.AlgorithmES512 {
+					c.Fail("C04/refusal-not-stable", fmt.Sprintf("slot %d of %d names ES512; after a first Sign failed there (%v) a second Sign with an ES256 signer returned %v, the key was invoked %d times, the header now says %v", pos, n, e1, e2, len(other.calls), alg), rep)
+				}
+				_ = before
+				_ = mid
+			}
+		}
+	}
+	// the single-signer structures
+	for _, structure := range []string{"COSE_Sign1", "COSE_Signature", "COSE_Countersignature"} {
+		h := cose.Headers{Protected: cose.ProtectedHeader{cose.HeaderLabelAlgorithm: cose.AlgorithmES512, int64(4): []byte("kid")}, Unprotected: cose.UnprotectedHeader{}}
+		parent := &cose.Sign1Message{Headers: cose.Headers{Protected: cose.ProtectedHeader{}}, Payload: []byte("pp"), Signature: []byte{9}}
+		var sign func(sg *spySigner) error
+		var snap func() string
+		switch structure {
+		case "COSE_Sign1":
+			m := &cose.Sign1Message{Headers: h, Payload: []byte("p")}
+			sign = func(sg *spySigner) error { return m.Sign(nil, nil, sg) }
+			snap = func() string { return oSign1(m) }
+		case "COSE_Signature":
+			sg0 := &cose.Signature{Headers: h}
+			sign = func(sg *spySigner) error { return sg0.Sign(nil, sg, []byte{0x40}, []byte("p"), nil) }
+			snap = func() string { return oSigv(sg0) }
+		default:
+			cs := &cose.Countersignature{Headers: h}
+			sign = func(sg *spySigner) error { return cs.Sign(nil, sg, parent, nil) }
+			snap = func() string { return oSigv((*cose.Signature)(cs)) }
+		}
+		before := snap()
+		e1 := sign(&spySigner{alg: cose.AlgorithmES256, kind: SOk, sig: []byte{1}})
+		after := snap()
+		e2 := sign(&spySigner{alg: cose.AlgorithmES256, kind: SOk, sig: []byte{1}})
+		c.Eval("refusal-is-stable/"+structure, "", true)
+		if e1 == nil || e2 == nil || before != after {
+			c.Fail("C04/refusal-not-stable", fmt.Sprintf("%s naming ES512 offered to an ES256 signer twice: %v, then %v; object changed by the refusal: %v", structure, e1, e2, before != after), map[string]any{"structure": structure})
 		}
 	}
 }
